@@ -470,7 +470,14 @@ pub fn gen_cli(rng: &mut Rng) -> E3Scn {
             1 => SigReact::Exit(*rng.pick(&[1u64, 10, 100])),
             _ => SigReact::Exit(0),
         };
-        children.push(ChildSpec { self_exit, code: rng.below(2) as i32, on_signal, ..Default::default() });
+        let mut c = ChildSpec { self_exit, code: rng.below(2) as i32, on_signal, ..Default::default() };
+        // wait() on the command fails once: right after the spawn, or some time into the run
+        match rng.below(16) {
+            0 => c.fail_wait = true,
+            1 => c.wait_fail_after = Some(*rng.pick(&[1u64, 20, 150])),
+            _ => {}
+        }
+        children.push(c);
     }
     // (one in 25: a long session)
     let n = if rng.chance(1, 25) { rng.range(15, 45) } else { rng.range(0, 8) };
